@@ -155,7 +155,7 @@ def run(ctx):
     rep = ctx.rep
     rng = Rng(ctx.seed, 6)
     items = []
-    for i in range(ctx.budget(900, 30000)):
+    for i in range(ctx.budget(900, 150000)):
         r = rng.fork(i)
         elems = rand_elems(r)
         sep = r.choice(SEPS)
